@@ -6,4 +6,5 @@ import Corerad.Props.C13
 import Corerad.Props.C14
 import Corerad.Props.C15
 import Corerad.Props.C16
+import Corerad.Props.C18
 import Corerad.Props.C19
